@@ -1432,14 +1432,20 @@ where
     /// # Expression operation priority
     /// Fold expression priority.
     /// Pass expressions tree from max priority level to minimum
-    /// priority level. If expression priority for concrete branch
-    /// founded, it's folded to leaf (same as bracketing).
+    /// priority level. Every operation of the current level is folded,
+    /// together with its left and right operands, to a leaf (same as
+    /// bracketing), from left to right.
     ///
     /// ## Return
     /// New folded expressions tree.
     fn expression_operations_priority(
         data: ast::Expression<'_, I, E>,
     ) -> ast::Expression<'_, I, E> {
+        // A chain with fewer than two operations has nothing to bracket
+        match &data.operation {
+            Some((_, expr)) if expr.operation.is_some() => (),
+            _ => return data,
+        }
         let mut data = data;
         for priority in (0..=MAX_PRIORITY_LEVEL_FOR_EXPRESSIONS).rev() {
             data = Self::fetch_op_priority(data, priority);
@@ -1448,72 +1454,43 @@ where
     }
 
     /// Fetch expression operation priories and fold it.
-    /// Expressions folded by operations priority. For that expressions
-    /// tree folded each branch of tree to leaf by priority operation
-    /// level. The most striking image is bracketing an expression with
-    /// a higher priority, and build tree based on that.
-    ///
-    /// For example: expr = expr1 OP1 expr2 - it has 2 branches
-    /// if expr2 contain subbranch (for example: `expr2 OP2 expr3`) we trying
-    /// to find priority level for current pass. And if `priority_level == OP1`
-    /// - fold it to leaf.
-    /// NOTICE: expr1 can't contain subbranches by design. So we pass
-    /// expression tree from left to right.
-    /// If priority level not equal, we just return income expression, or
-    /// if it has subbranch - launch fetching subbranch
+    /// For `expr = expr1 OP1 expr2 ...`: if `OP1` has the priority of
+    /// the current pass, `expr1 OP1 expr2` is folded to a leaf, which
+    /// becomes the left operand of the rest of the chain; otherwise
+    /// `expr1` is kept and the rest of the chain is fetched.
     fn fetch_op_priority(
         data: ast::Expression<'_, I, E>,
         priority_level: u8,
     ) -> ast::Expression<'_, I, E> {
-        // Check is expression contains right side with operation
-        if let Some((op, expr)) = data.clone().operation {
-            // Check is right expression contain subbranch (sub operation)
-            if let Some((next_op, next_expr)) = expr.operation.clone() {
-                // Check incoming expression operation priority level
-                if op.priority() == priority_level {
-                    // Fold expression to leaf - creating new expression as value
-                    let expression_value =
-                        ast::ExpressionValue::Expression(Box::new(ast::Expression {
-                            expression_value: data.expression_value,
-                            operation: Some((
-                                op,
-                                Box::new(ast::Expression {
-                                    expression_value: expr.expression_value,
-                                    operation: None,
-                                }),
-                            )),
-                        }));
-                    // Fetch next expression branch
-                    let new_expr = Self::fetch_op_priority(*next_expr, priority_level);
-                    // Create new expression with folded `expression_value`
-                    ast::Expression {
-                        expression_value,
-                        operation: Some((next_op, Box::new(new_expr))),
-                    }
-                } else {
-                    // If priority not equal for current level just
-                    // fetch right side of expression for next branches
-                    let new_expr =
-                        if next_op.priority() > op.priority() && next_expr.operation.is_none() {
-                            // Pack expression to leaf
-                            ast::Expression {
-                                expression_value: ast::ExpressionValue::Expression(expr),
-                                operation: None,
-                            }
-                        } else {
-                            Self::fetch_op_priority(*expr, priority_level)
-                        };
-                    // Rebuild expression tree
-                    ast::Expression {
-                        expression_value: data.expression_value,
-                        operation: Some((op, Box::new(new_expr))),
-                    }
-                }
-            } else {
-                data
-            }
+        let Some((op, expr)) = data.operation else {
+            return data;
+        };
+        if op.priority() == priority_level {
+            // Fold expression to leaf - creating new expression as value
+            let expression_value = ast::ExpressionValue::Expression(Box::new(ast::Expression {
+                expression_value: data.expression_value,
+                operation: Some((
+                    op,
+                    Box::new(ast::Expression {
+                        expression_value: expr.expression_value,
+                        operation: None,
+                    }),
+                )),
+            }));
+            // The folded leaf is the left operand of the next operation
+            Self::fetch_op_priority(
+                ast::Expression {
+                    expression_value,
+                    operation: expr.operation,
+                },
+                priority_level,
+            )
         } else {
-            data
+            // Keep the left operand and fetch the rest of the chain
+            ast::Expression {
+                expression_value: data.expression_value,
+                operation: Some((op, Box::new(Self::fetch_op_priority(*expr, priority_level)))),
+            }
         }
     }
 }
